@@ -99,7 +99,15 @@ def run_property(prop: str, repo_root: str, tier: str = "quick", ctx: Ctx = None
         ctx = Ctx(repo, tier)
     mod = importlib.import_module("g3dsa.rules.%s" % prop.lower())
     res = Result(prop)
-    mod.run(ctx, res)
+    try:
+        mod.run(ctx, res)
+    except AnalysisError as e:
+        # a rule gave up after other rules had already established violations: each reported violation stands on its own rule
+        # (its obligation was evaluated completely), so the verdict is "violated"; with no finding so far the run fails closed
+        if not res.findings:
+            raise
+        res.note("analysis incomplete after the findings below: %s" % e)
+        res.extra["incomplete"] = str(e)
     return res
 
 
@@ -160,6 +168,10 @@ def main(argv=None) -> int:
                     {"control": name, "rule": m[0].rule, "status": o["status"], "reported": bool(new)})
                 if o["status"] == "inapplicable":
                     continue  # the anchor statement was rewritten; the thorough tier's seeded changes cover the rule
+                if not new and res.findings:
+                    # the tree under analysis already violates the property; the control variant of such a tree may not be analysable
+                    res.note("positive control %s not evaluated on a tree with findings (%s)" % (name, o["status"]))
+                    continue
                 if not new:
                     print("ANALYSIS-ERROR: positive control %s (rule %s) was not reported: the rule would pass vacuously" % (name, m[0].rule))
                     return 2
